@@ -11,7 +11,7 @@ Print Assumptions C08_run_store_spec.
 (* uncache_tasks removes exactly the named entries *)
 Theorem C08_uncache_spec : forall ts (st : list (nat * val)) t,
   lookup (fst (lab_step sched_params (with_run {| ntasks := 0; deps := []; reads := []; behs := []; ty := []; maxpar := [];
-                cacheable := []; req := []; pre := []; bust := false; cont := true |} [] [] false true) st (LUncache ts))) t
+                cacheable := []; req := []; pre := []; bust := false; cont := true |} [] [] false true []) st (LUncache ts))) t
   = if mem t ts then None else lookup st t.
 Proof. exact (fun ts st t => lookup_del_all ts st t). Qed.
 Print Assumptions C08_uncache_spec.
